@@ -66,6 +66,8 @@ def then_form_r2(ctx, r2, rr, hop, ops_i):
         r2.fail("C13.R2:map", acc.path, acc.span, "hop closure is not applied through a single Iterator::map: unrecognised-idiom")
         return True
     ads, kind, src = common.iter_chain(maps[0][4][0])
+    if is_then and not ads and kind == "into_iter" and set(ctx.roots(src)) == {P_(acc, ops_i)}:
+        return False        # `.then(..)` on a hand-kept hop counter, not on an enumerate index: the counter form decides
     if [a for a, _ in ads] != ["enumerate"] or kind != "into_iter" or set(ctx.roots(src)) != {P_(acc, ops_i)}:
         r2.fail("C13.R2:iteration", acc.path, common.span_of_block_term(acc, maps[0][2]), "hops are not generated one per operation in route order (adaptors %s)" % [a for a, _ in ads])
         return True
@@ -276,11 +278,20 @@ def _run(ctx):
         defs = cb.defs().get(to_op["place"]["l"], []) if to_op and to_op["k"] in ("copy", "move") else []
         some_b = [b for (b, i, k) in defs if k == "full" and cb.blocks[b]["stmts"][i]["rv"]["k"] == "agg" and cb.blocks[b]["stmts"][i]["rv"].get("variant") == "Some"]
         none_b = [b for (b, i, k) in defs if k == "full" and cb.blocks[b]["stmts"][i]["rv"]["k"] == "agg" and cb.blocks[b]["stmts"][i]["rv"].get("variant") == "None"]
-        if len(some_b) != 1 or len(none_b) != 1 or len(defs) != 2:
+        # `to: (counter == len).then(|| recipient)`: the same choice as `if counter == len { Some(..) } else { None }`
+        tov_ = dict(hv[3]).get("to")
+        then_guard = None
+        if tov_ is not None and tov_[0] == "call" and isinstance(tov_[3], str) and re.search(r"bool::(<impl bool>::)?then(_some)?$", generic_path(tov_[3])) and str(tov_[1]) == cf.path:
+            cv0 = tov_[4][0]
+            while cv0[0] == "cast":
+                cv0 = cv0[2]
+            if cv0[0] == "binop" and cv0[1] == "Eq":
+                then_guard = common.Guard(cf, tov_[2], ("cmp", "eq", (cv0[2], cv0[3]), False, tov_[2], "prim"), None, None)
+        if then_guard is None and (len(some_b) != 1 or len(none_b) != 1 or len(defs) != 2):
             r2.fail("C13.R2:to-shape", cf.path, hspan.replace("!x", ""), "the hop's `to` is not `if <cond> {Some(..)} else {None}`: unrecognised-idiom")
         else:
-            guard = None
-            for g in common.bool_guards(P, cf):
+            guard = then_guard
+            for g in (common.bool_guards(P, cf) if then_guard is None else []):
                 if cb.edge_dominates(g.edge(True), some_b[0]) and cb.edge_dominates(g.edge(False), none_b[0]):
                     guard = g
             if guard is None or guard.cond[0] != "cmp" or guard.cond[1] != "eq" or len(guard.cond[2]) != 2:
@@ -442,6 +453,15 @@ def _run(ctx):
             if vf.sig and re.search(r"fn\(&'?\w* ?\[%s\]\) -> std::result::Result<\(\), cosmwasm_std::StdError>" % ctx.N.rx("SwapOperation"), vf.sig) \
                     and common.check_helper(P, vf) is None:      # a one-condition check helper (e.g. the empty-route test) is a guard, not the validator
                 validators.append((b, vf))
+    if len(validators) > 1:
+        # further route checks of the same shape (hops must chain, no more than N hops, ..) only reject more routes: the
+        # validator of the dangling-output rule is the one that keeps the set of produced-but-unconsumed assets
+        keeps = [(b_, vf_) for b_, vf_ in validators if any(p_ and common.last_seg(p_) == "insert" and re.search(r"Hash(Map|Set)|BTree(Map|Set)", p_) for _b, p_, _fr, _t in P.calls(vf_))]
+        if len(keeps) == 1:
+            for b_, vf_ in validators:
+                if vf_.path != keeps[0][1].path:
+                    r4.site("additional route check %s (effect-free; it can only reject)" % vf_.path)
+            validators = keeps
     if len(validators) != 1:
         r4.fail("C13.R4:validator-anchor", acc.path, acc.span, "anchor-missing: route validator call (fn(&[SwapOperation]) -> StdResult<()>): %d found" % len(validators))
     else:
